@@ -69,6 +69,7 @@ type ReplayCfg struct {
 	Overlay    map[string]string `json:"overlay"`      // extra overlay entries for native replay: /repo-relative -> /verif-relative
 	Disabled   bool              `json:"disabled"`
 	NoIntercept bool             `json:"no_native_intercept"` // run natively against the unmodified functions (the real git binary)
+	NativeInterceptSkip []string `json:"native_intercept_skip"` // intercept keys that are not applied in native replays (the real function runs)
 	Why        string            `json:"why"`
 }
 
